@@ -11,6 +11,7 @@ import io
 from . import env
 from .simnet import Network, SimPeer, SIM_ADDR
 from .vloop import World
+from . import vloop as _vl
 from .w2 import W2, MockSock, Descriptor
 
 DEFAULT_SNAPSHOT = env.REPO + "/tests/snapshots/default.snapshot"
@@ -229,19 +230,19 @@ class QueueTap:
             tap._id += 1
             tap.ids[id(item)] = tap._id
             item = _Tagged(item, tap._id)
-            tap.log.append({"k": "put", "id": tap._id, "t": loop.time(), "data": bytes(item[0]) if item[0] is not None else None, "by": who()})
+            tap.log.append({"n": next(_vl.SEQ), "k": "put", "id": tap._id, "t": loop.time(), "data": bytes(item[0]) if item[0] is not None else None, "by": who()})
             return orig_put(item)
 
         def pop():
             head = q.head
             hid = head.gv_id if isinstance(head, _Tagged) else 0
-            tap.log.append({"k": "pop", "id": hid, "t": loop.time(), "by": who(), "marked": q.is_marked})
+            tap.log.append({"n": next(_vl.SEQ), "k": "pop", "id": hid, "t": loop.time(), "by": who(), "marked": q.is_marked})
             return orig_pop()
 
         def mark():
             head = q.head
             hid = head.gv_id if isinstance(head, _Tagged) else 0
-            tap.log.append({"k": "mark", "id": hid, "t": loop.time(), "by": who()})
+            tap.log.append({"n": next(_vl.SEQ), "k": "mark", "id": hid, "t": loop.time(), "by": who()})
             return orig_mark()
 
         q.put_nowait = put_nowait
